@@ -86,7 +86,9 @@ Inductive amode := AFixed (n : Z) | AExhaust | ALen (f : ifmt).
 Record pmeta := { p_index : Z; p_default : option value }.
 
 Inductive schema :=
-| SLeaf (t : jty) (f : option bfmt) (nt : bool)            (* nt = nullTerminated *)
+| SLeaf (t : jty) (f : option bfmt) (nt : nat)
+    (* nt = 0: not nullTerminated; nt = u > 0: nullTerminated, u = width in bytes of one code
+       unit of stringEncoding: 1 for utf-8 / ascii / latin-1, 2 for the utf-16 family, 4 for utf-32 *)
 | SArr (m : amode) (it : schema)
 | SObj (req : option (list key)) (ps : list (key * pmeta * schema)).
 
@@ -275,6 +277,27 @@ Definition take (n : Z) (buf : list Z) : option (list Z * list Z) :=
 Fixpoint find_nul (s : list Z) : list Z :=
   match s with [] => [] | c :: r => if c =? 0 then [] else c :: find_nul r end.
 
+(* decode_string: s = bytes.decode(encoding); i = s.find("\x00"); s[:i].  The search is for the NUL
+   *character*.  In a fixed-width encoding a character is a sequence of whole u-byte code units and
+   only NUL is the all-zero unit, so on bytes this is: scan unit by unit, stop at the first
+   all-zero unit (a trailing partial unit is kept: Python's decoder refuses it). *)
+Fixpoint find_nul_units (fuel : nat) (u : nat) (bs : list Z) : list Z :=
+  match fuel with
+  | O => bs
+  | S k =>
+      let c := firstn u bs in
+      if (length c <? u)%nat then bs
+      else if forallb (Z.eqb 0) c then []
+      else c ++ find_nul_units k u (skipn u bs)
+  end.
+
+Definition cut (nt : nat) (bs : list Z) : list Z :=
+  match nt with
+  | O => bs
+  | S O => find_nul bs
+  | _ => find_nul_units (length bs) nt bs
+  end.
+
 Section Codec.
 Variable round32 : Z -> option Z.     (* (float)x as a binary32 pattern; None = overflow *)
 Variable widen32 : Z -> Z.            (* binary32 pattern -> binary64 pattern, exact *)
@@ -395,7 +418,7 @@ Definition encode_top (t : top) (v : value) : eres (list Z) :=
 Definition signed_of (f : ifmt) (u : Z) : Z :=
   if isigned f && (imod f / 2 <=? u) then u - imod f else u.
 
-Definition decode_leaf (t : jty) (f : option bfmt) (nt : bool) (buf : list Z) : dres :=
+Definition decode_leaf (t : jty) (f : option bfmt) (nt : nat) (buf : list Z) : dres :=
   match t with
   | TNull =>
       match f with
@@ -411,13 +434,13 @@ Definition decode_leaf (t : jty) (f : option bfmt) (nt : bool) (buf : list Z) : 
           | None => DShort
           | Some (bs, rest) =>
               match f with
-              | BChar => DOk (VStr (if nt then find_nul bs else bs)) rest
-              | BStr _ => DOk (VStr (if nt then find_nul bs else bs)) rest
+              | BChar => DOk (VStr (cut nt bs)) rest
+              | BStr _ => DOk (VStr (cut nt bs)) rest
               | BPas n =>
                   if n <=? 0 then DErr ESystem
                   else let k := Z.min (hd 0 bs) (n - 1) in
                        let s := firstn (Z.to_nat k) (tl bs) in
-                       DOk (VStr (if nt then find_nul s else s)) rest
+                       DOk (VStr (cut nt s)) rest
               | _ => DErr EAttr
               end
           end
@@ -579,16 +602,16 @@ Definition validate_and_encode (t : top) (v : value) : eres (list Z) :=
 
 (* [mod 2^32] / [mod 2^64]: what 4 / 8 stored bytes can hold; the identity on genuine bit
    patterns (norm_float_wf in RoundTripProofs.v) *)
-Definition norm_leaf (t : jty) (f : option bfmt) (nt : bool) (v : value) : value :=
+Definition norm_leaf (t : jty) (f : option bfmt) (nt : nat) (v : value) : value :=
   match t with
   | TNull => VNull
   | TString =>
       match f, v with
-      | Some BChar, VStr s => VStr (if nt then find_nul s else s)
-      | Some (BStr n), VStr s => VStr (if nt then find_nul (pad_to n s) else pad_to n s)
+      | Some BChar, VStr s => VStr (cut nt s)
+      | Some (BStr n), VStr s => VStr (cut nt (pad_to n s))
       | Some (BPas n), VStr s =>
           let k := Nat.min (Nat.min (length s) (Z.to_nat (n - 1))) 255 in
-          VStr (if nt then find_nul (firstn k s) else firstn k s)
+          VStr (cut nt (firstn k s))
       | _, _ => v
       end
   | _ =>
@@ -686,6 +709,27 @@ Definition check_row (t : top) (v : value) (oe : oenc) (od : odec) : bool :=
   | _, _ => false
   end.
 
+(* BaseTable.__setitem__ / append with a row object taken from another table or a tree sequence:
+   row.metadata is the object decoded under the SOURCE schema; the destination table validates
+   and encodes that object with ITS schema (tables.py 557-571, 584-600) *)
+Definition transfer (round32 : Z -> option Z) (widen32 : Z -> Z) (src dst : top) (bs : list Z) : eres (list Z) :=
+  match decode_top widen32 (rt_fuel bs) src bs with
+  | DOk obj _ => validate_and_encode round32 dst obj
+  | _ => EErr EOther
+  end.
+
+(* v is stored in the source table (schema src), the row object is assigned to / appended to a
+   table with schema dst; (oe, od) = what the destination row then holds and shows *)
+Definition check_transfer (src dst : top) (v : value) (oe : oenc) (od : odec) : bool :=
+  let ms := modify_top src in
+  match validate_and_encode round32_impl ms v with
+  | EOk bs => match decode_top widen32_impl (rt_fuel bs) ms bs with
+              | DOk obj _ => check_row dst obj oe od
+              | _ => false
+              end
+  | EErr _ => false
+  end.
+
 (* decode of arbitrary bytes (no encode step) *)
 Definition check_decode (t : top) (buf : list Z) (od : odec) : bool :=
   match decode_top widen32_impl (rt_fuel buf) (modify_top t) buf, od with
@@ -707,10 +751,10 @@ Definition check_decode (t : top) (buf : list Z) (od : odec) : bool :=
    Draft7Validator, which has no such hooks.
      CSchemaErr = MetadataSchemaValidationError, CKeyErr = KeyError from make_encode/make_decode
      (sub_schema["binaryFormat"] at closure-construction time). *)
-Inductive cres := CAccept | CSchemaErr | CKeyErr.
+Inductive cres := CAccept | CSchemaErr | CKeyErr | CAttrErr.   (* CAttrErr = AttributeError *)
 
 Definition cres_eqb (a b : cres) : bool :=
-  match a, b with CAccept, CAccept | CSchemaErr, CSchemaErr | CKeyErr, CKeyErr => true | _, _ => false end.
+  match a, b with CAccept, CAccept | CSchemaErr, CSchemaErr | CKeyErr, CKeyErr | CAttrErr, CAttrErr => true | _, _ => false end.
 
 Definition leaf_needs_format (s : schema) : bool :=
   match s with SLeaf TNull _ _ => false | SLeaf _ None _ => true | _ => false end.
@@ -820,11 +864,31 @@ Definition top_rules (req : option (list key)) (ps : list prop) : bool :=
   || existsb (fun p : prop => negb (key_in (pkey p) req') &&
                 match p_default (snd (fst p)) with None => true | Some _ => false end) ps.  (* required_validator *)
 
-(* MetadataSchema(): meta-schema + validators, then the codec is built from the *modified*
-   (ordered) schema: make_encode, then make_decode *)
+(* Finding F9e, property names that collide with schema keywords.
+   order_by_index recurses with do_sort = (key == "properties"): the sub-schema of a *property
+   called "properties"* (at any depth) is therefore sorted as if it were a property map, and
+   k_v[1].get("index", 0) hits its "type" string: AttributeError, before any validation.
+   binary_format_validator looks at instance.values() of the root: the property map itself is one
+   of them, and map.get("type") is then the sub-schema of a *property called "type"* — "not a
+   composite type and no binaryFormat" unless a property called "binaryFormat" exists too. *)
+Definition k_properties : key := [112; 114; 111; 112; 101; 114; 116; 105; 101; 115].
+Definition k_type : key := [116; 121; 112; 101].
+Definition k_binaryFormat : key := [98; 105; 110; 97; 114; 121; 70; 111; 114; 109; 97; 116].
+
+Fixpoint has_prop_named (k : key) (s : schema) : bool :=
+  match s with
+  | SLeaf _ _ _ => false
+  | SArr _ it => has_prop_named k it
+  | SObj _ ps => existsb (fun p : prop => key_eqb (pkey p) k || has_prop_named k (snd p)) ps
+  end.
+
+(* MetadataSchema(): modify_schema, meta-schema + validators, then the codec is built from the
+   *modified* (ordered) schema: make_encode, then make_decode *)
 Definition construct (t : top) : cres :=
   match t_schema t with
   | SObj req ps =>
+      if has_prop_named k_properties (t_schema t) then CAttrErr else
+      if key_in k_type (map pkey ps) && negb (key_in k_binaryFormat (map pkey ps)) then CSchemaErr else
       (* the binaryFormat regex is plain JSON-schema, so it is applied at every depth;
          c12_pascal_zero_allowed is regenerated from the regex *)
       if negb c12_pascal_zero_allowed && has_pas0 (t_schema t) then CSchemaErr
@@ -959,3 +1023,12 @@ Fixpoint dt_layout (d : dtype) (base : Z) : list (Z * Z * Z) :=
 
 Definition layout_eqb (a b : list (Z * Z * Z)) : bool :=
   list_eqb (fun x y => (fst (fst x) =? fst (fst y)) && (snd (fst x) =? snd (fst y)) && (snd x =? snd y)) a b.
+
+(* TreeSequence.<table>_metadata (trees.py: individuals_, nodes_, edges_, sites_, mutations_,
+   migrations_, populations_metadata): the structured view of table k is built from the schema of
+   table k — table_metadata_schemas.<k>.structured_array_from_buffer(column k) *)
+Definition table_view (schemas : list top) (k : nat) : nres :=
+  match nth_error schemas k with
+  | Some t => np_dtype_top (modify_top t)
+  | None => NValueErr
+  end.
